@@ -40,7 +40,8 @@ CHECKS = {
    design_ref='DESIGN.md par.5 C07',
    note='model filesystem; <=3 directories; handler policies by call position'),
  'C10': dict(
-   text='Loader operation sequences (verify+lookups; update without save; update+save; failing '
+   text='Loader operation sequences (verify+lookups; update without save; update+save; failing update; save whose k-th '
+        'dump fails; '
         'update) on a model tree with a complete write log: nothing is logged before save or '
         'by read-only operations, only Manifest paths are written, data nodes keep identity and '
         'attributes, DIST/IGNORE/TIMESTAMP multisets and entry types are preserved, and entries '
@@ -64,7 +65,9 @@ CHECKS = {
         'sub-Manifest compressed iff size >= watermark, keeps the format of already compressed '
         'ones, never renames the top-level Manifest, leaves one file per Manifest referenced '
         'correctly by its parent, and the tree verifies; policy and suffix functions decided '
-        'directly on symbolic ints/strings.',
+        'directly on symbolic ints/strings; ebuild profiles too; the size save_manifest hands '
+        'to the policy is the UTF-8 byte length of what the real dump wrote for a symbolic '
+        'file name.',
    design_ref='DESIGN.md par.5 C13',
    note='compression is a property of the name in the model (codecs are C code); two '
         'sub-Manifests; sizes are symbolic values reported by the text layer'),
@@ -73,14 +76,16 @@ CHECKS = {
         'verify_path/update_entry_for_path over the real get_file_metadata for every object '
         'kind, and (M) among all filesystem calls of a whole-tree verification or update scan on '
         'the model: the result is that error or a mismatch, never success and never "absent"; a '
-        'failing update has logged no write.',
+        'failing update has logged no write; (M-find) the same for top-level Manifest '
+        'discovery: the error is raised, no object is treated as absent.',
    design_ref='DESIGN.md par.5 C06',
    note='one fault per run; open(2) contract for ENXIO/EOPNOTSUPP; os.walk reports scandir '
         'errors through onerror; save phase and decompressors outside the claim'),
  'C15': dict(
    text='The real find_top_level_manifest runs on model directory chains (depth 1-2 quick, 1-3 '
         'thorough) where per level the Manifest presence, its name (plain/compressed), the kind '
-        'of IGNORE entry (start path, ancestor, sibling, string-prefix look-alike), the device '
+        'of IGNORE entry (start path, ancestor, sibling, string-prefix look-alike, own '
+        'directory name), the device '
         'of each level and of one Manifest file, allow_compressed and allow_xdev are symbolic '
         'choices; the result equals a reference written from the statement.',
    design_ref='DESIGN.md par.5 C15',
@@ -91,7 +96,8 @@ CHECKS = {
         'symlink slots whose targets range symbolically over {none, root, a, a/b, c}, symbolic '
         'IGNORE placement, a directory and an empty mount point on other devices, '
         'one-file-system on/off; the model walk has fuel so non-termination is observable; the '
-        'oracle is the definition evaluated by DFS over the link graph.',
+        'oracle is the definition evaluated by DFS over the link graph; plus a tree in which '
+        'every object incl. a sub-Manifest file has its own symbolic device.',
    design_ref='DESIGN.md par.5 C16',
    note='os.walk(followlinks) protocol model; <=3 links, 4 directories; files consistent'),
  'C05': dict(
@@ -132,7 +138,8 @@ CHECKS = {
         'contract stubs: only ManifestSyntaxError may escape, every malformed shape listed in '
         'the statement is rejected, accepted entries are well-formed; all escape forms over '
         'free digits incl. values above 0x10FFFF; tag dispatch at line level through the real '
-        'load().',
+        'load(); escapes beyond a C int; a free size field under Python\'s number grammar '
+        '(validated model of int).',
    design_ref='DESIGN.md par.5 C09',
    note='per-line decomposition; which digit strings int()/strptime accept is Python\'s '
         'business (contract stubs)'),
@@ -169,8 +176,9 @@ CHECKS = {
    text='verify_entry_compatibility on all 7x7 entry kinds with symbolic sizes/digests and '
         'manifest_hashes_to_hashlib on odd names return or raise library exceptions only; '
         'gemato.cli.main (verify, update, sub-directory update, create; three profiles; '
-        'keep-going) on model trees carrying one of 11 odd features ends with exit status 0/1 or '
-        'a genuine OSError - no attribute/key/index/type/assertion/value error escapes.',
+        'keep-going) on model trees carrying one of 24 odd features ends with exit status 0/1 or '
+        'a genuine OSError - no attribute/key/index/type/assertion/value error escapes; the '
+        'parser\'s size field over free characters lets only the syntax error escape.',
    design_ref='DESIGN.md par.5 C18',
    note='one odd feature per tree; text-level totality is C09; argparse usage errors excluded'),
  'C19': dict(
